@@ -76,10 +76,61 @@ def one_case(args):
     return res
 
 
+def special_case(args):
+    """commands outside the behaviour generator: output that is not valid UTF-8, and a large file that is ASCII at
+    the head and binary only after 64 KB.  Returns (what, problem or None)."""
+    i, seed, base = args
+    import random
+    import subprocess
+    rng = random.Random(seed)
+    d = os.path.join(base, 'special%d' % i)
+    shutil.rmtree(d, ignore_errors=True)
+    os.makedirs(os.path.join(d, 'outdir'))
+    pay = os.path.join(d, '.payload')
+    os.makedirs(pay)
+    kind = ['stdout-bytes', 'stderr-bytes', 'bighead'][i % 3]
+    a, b = rng.choice([(b'\xe9', b'\xe8'), (b'\xa3', b'\x80'), (b'\xff', b'\xfe')])
+    tail_a, tail_b = b'\x00\x01\x0b\x02\xff' * 20, b'\x00\x01\x0c\x02\xff' * 20
+
+    def write(which):
+        if kind == 'bighead':
+            body = (b'# capture file, ascii header\n' + b'0123456789 abcdefghij\n' * 3300)[:70000]
+            with open(os.path.join(pay, 'cap'), 'wb') as f:
+                f.write(body + (tail_a if which == 0 else tail_b))
+            script = '#!/bin/sh\necho done\ncp %s %s\nexit 0\n' % (G.sh_quote(os.path.join(pay, 'cap')),
+                                                                     G.sh_quote(os.path.join(d, 'outdir', 'capture.dat')))
+        else:
+            with open(os.path.join(pay, 'msg'), 'wb') as f:
+                f.write(b'total caf' + (a if which == 0 else b) + b' 5\nsecond line\n')
+            script = '#!/bin/sh\ncat %s%s\nexit 0\n' % (G.sh_quote(os.path.join(pay, 'msg')), ' 1>&2' if kind == 'stderr-bytes' else '')
+        with open(os.path.join(d, 'cmd.sh'), 'w') as f:
+            f.write(script)
+    write(0)
+    rc, out = G.run_gentest(d, 'test_cmd.py', [], ['outdir'], 'sh cmd.sh')
+    if rc != 0 or not os.path.exists(os.path.join(d, 'test_cmd.py')):
+        return kind, 'declined', None        # no test, so nothing can wrongly pass
+    rc1, res1, out1 = G.run_script(d, 'test_cmd.py')
+    if rc1 != 0:
+        return kind, 'generated', 'nothing changed but the generated test fails: %s' % out1[-300:]
+    write(1)
+    rc2, res2, out2 = G.run_script(d, 'test_cmd.py')
+    failing = sorted(k for k, v in res2.items() if v != 'ok')
+    want = {'stdout-bytes': 'test_stdout', 'stderr-bytes': 'test_stderr', 'bighead': 'test_capture_dat'}[kind]
+    if want not in failing:
+        return kind, 'generated', ('the command now behaves differently (%s: bytes %r instead of %r) but %s does not fail (failing: %r)'
+                                   % (kind, (tail_b[:5] if kind == 'bighead' else b), (tail_a[:5] if kind == 'bighead' else a), want, failing))
+    return kind, 'generated', None
+
+
 def run(ctx):
     base = os.path.join(lib.WORK, 'c12')
     shutil.rmtree(base, ignore_errors=True)
     os.makedirs(base)
+    for kind, how, problem in G.pmap(special_case, [(i, ctx.rng.randrange(1 << 30), base) for i in range(6 if ctx.quick else 60)]):
+        ctx.count(('special', kind, how, repr(problem)), True)
+        ctx.bump('special.%s.%s' % (kind, how))
+        if problem:
+            ctx.fail({'special': kind}, problem)
     n = 20 if ctx.quick else 500
     seeds = [ctx.rng.randrange(1 << 30) for _ in range(n)]
     results = G.pmap(one_case, [(i, s, base) for i, s in enumerate(seeds)])
